@@ -64,6 +64,13 @@ class Ctx:
             # the evidence is an Unknown of the abstract execution: the code was not understood, which is
             # not a witness of a violation
             return self.inconclusive(rule, key, where, what, "abstract execution lost track of a value: " + how)
+        if not ok and self.pid != "CTL":
+            from . import renames
+            hit = [w for w in renames.WEAK if (":" + w) in key or ("|" + w) in key or (" " + w + " ") in (" " + what + " ") or (w + "(") in (how or "")]
+            if hit:
+                # the function was re-identified under a new name *and* new parameter names: what its parameters mean
+                # may have changed with them, so a failing obligation about it is not trusted as a violation
+                return self.inconclusive(rule, key, where, what, "anchor %s was re-identified with renamed parameters; not decided: %s" % (hit[0], how))
         st = DISCHARGED if ok else VIOLATION
         o = Ob(rule, key, where, what, st, how, nontrivial, witness)
         self.obs.append(o)
